@@ -118,8 +118,13 @@ pub struct ReplayFile {
     pub case: Case,
 }
 
+/// the violation of the same clause in this run: one that is not an instance of an open finding if there is one
 fn find_same(ctx: &Ctx, key: &str) -> Option<Violation> {
-    ctx.viol.iter().find(|v| v.key() == key).cloned()
+    ctx.viol.iter().find(|v| v.key() == key && findings::classify(v).is_none()).or_else(|| ctx.viol.iter().find(|v| v.key() == key)).cloned()
+}
+/// the instance of open finding `id` in this run, if any
+fn find_instance(ctx: &Ctx, key: &str, id: &str) -> Option<Violation> {
+    ctx.viol.iter().find(|v| v.key() == key && findings::classify(v).as_deref() == Some(id)).cloned()
 }
 
 /// Greedy delta-debugging over the world's shrink candidates; a candidate is kept only if the same
@@ -639,7 +644,13 @@ fn replay_file(path: &str, verbose: bool) -> ReplayOutcome {
             }
         }
     }
-    match find_same(&ctx, &rf.violation.key()) {
+    // a recorded instance of an open finding is looked for as such (the run may also hold other violations of the clause)
+    let key = rf.violation.key();
+    let found = match findings::classify(&rf.violation) {
+        Some(id) => find_instance(&ctx, &key, &id).or_else(|| find_same(&ctx, &key)),
+        None => find_same(&ctx, &key),
+    };
+    match found {
         Some(v) => ReplayOutcome::Reproduced(v),
         None => ReplayOutcome::Clean,
     }
